@@ -12,6 +12,7 @@ import PdfVerif.Lemmas.FiltersCodec
 import PdfVerif.Lemmas.FiltersChain
 import PdfVerif.Lemmas.FiltersA85
 import PdfVerif.Lemmas.FiltersLzw
+import PdfVerif.Lemmas.FiltersFuel
 
 namespace PdfVerif.Props.C03
 open PdfVerif PdfVerif.Filters PdfVerif.FilterEnc PdfVerif.Gen.Filters
@@ -316,5 +317,47 @@ stage, for the identity "compression". -/
 example : streamDecode id (.list [[65, 72, 120], [70, 108]])
     (.list [none, some { predictor := some 12, colors := some 2, columns := some 2, bpc := none }])
     (ahxEnc [1, 2] 0 (pngEnc 2 2 8 [4] [[1, 2, 3, 4]])) = .ok [1, 2, 3, 4] := by decide
+
+/-! ## Bounded work: the fuel of every fuelled loop suffices
+
+Each decoder loop of the model takes fuel that is a linear function of the input length; the
+theorems say that any larger fuel gives the same result, i.e. the loops terminate within the
+stated bound on EVERY input (valid or not). -/
+
+theorem rldecode_fuel (data : Bytes) (k : Nat) : rldecodeAux (data.length + 1 + k) data = rldecode data :=
+  rldecodeAux_fuel _ _ data (by omega) (by omega)
+
+theorem lzwdecode_fuel (data : Bytes) (k : Nat) :
+    lzwRun (8 * data.length + 1 + k) lzwInit (bitsOf data) = lzwdecode data :=
+  lzwRun_fuel _ _ lzwInit (bitsOf data) (by decide) (by rw [bitsOf_length]; omega) (by rw [bitsOf_length]; omega)
+
+theorem png_fuel (nbytes bpp : Nat) (above data : Bytes) (k : Nat) :
+    pngRows nbytes bpp (data.length + k) above data = pngRows nbytes bpp data.length above data :=
+  pngRows_fuel nbytes bpp _ _ above data (by omega) (by omega)
+
+theorem tiff_fuel (nbytes bpp : Nat) (hn : 0 < nbytes) (data : Bytes) (k : Nat) :
+    tiffRows nbytes bpp (data.length + k) data = tiffRows nbytes bpp data.length data :=
+  tiffRows_fuel nbytes bpp hn _ _ data (by omega) (by omega)
+
+/-! ## The pinned code (before the two `fix:` commits) violates the property
+
+`apply_png_predictor` of the pinned tree started with `line_above = columns` zero bytes and used
+`nbytes = colors*columns*bpc // 8`, `bpp = colors*bpc // 8`.  The model's row loop with those
+parameters reproduces the two defects on the minimised corpus inputs. -/
+
+/-- Pinned defect 1 (corpus/C03/png-first-row-up-colors2.json): 2 colours, 2 columns, first row
+filter Up - the row comes back truncated to `columns` bytes. -/
+theorem png_pinned_first_row_cex :
+    pngRows 4 2 8 (List.replicate 2 0) (pngEnc 2 2 8 [2] [[1, 2, 3, 4]]) ≠ .ok [1, 2, 3, 4] := by decide
+
+/-- … and Average/Paeth on the first row raise IndexError (corpus/C03/png-first-row-paeth-colors3.json). -/
+theorem png_pinned_first_row_paeth_cex :
+    pngRows 6 3 12 (List.replicate 2 0) (pngEnc 3 2 8 [4] [[10, 20, 30, 40, 50, 60]]) = .error .indexError := by decide
+
+/-- Pinned defect 2 (corpus/C03/png-bpc1-rowlen.json): 9 columns of 1 bit are 2 bytes per row, the
+pinned code used 9 // 8 = 1 and so split the data at the wrong offsets. -/
+theorem png_pinned_bpc1_cex :
+    pngRows 1 1 6 (List.replicate 1 0) (pngEnc 1 9 1 [0, 2] [[0xff, 0x80], [0xaa, 0x00]])
+      ≠ .ok [0xff, 0x80, 0xaa, 0x00] := by decide
 
 end PdfVerif.Props.C03
